@@ -985,6 +985,8 @@ var c12Cells = []c12Cell{
 		"D:0:-:0/0/1/- D:1:0:0/1/-/- M:1:0=1000 M:1:1=1010 M:1:- M:1:0=1000,1=1011"},
 	{"initform/nil", 1,
 		"D:0:-:0/0/-1/-;1/-/2/- M:0:- M:0:0=1000 T:0:0"},
+	{"initform/nil-shadowed-without-initform", 1,
+		"D:0:-:0/-/-1/-;1/1/-1/- D:1:0:0/0/-/-;1/-/-/- D:2:1:- P:2 M:1:- M:2:- M:1:0=1000 M:2:1=1010 M:0:- E:2:-"},
 	{"default-initargs/basic", 1,
 		"D:0:-:0/0/1/-;1/1/2/-;2/2/-/-;3/-/4/-:1=77,2=88 P:0 M:0:- M:0:1=1010 M:0:0=1000,2=1020 M:0:0=1000,1=1011,2=1022"},
 	{"default-initargs/shared-key-and-second-name", 1,
